@@ -359,7 +359,8 @@ class Checker:
 
 DEFAULT_USER_FNS = {
     "$eq": lambda c, args: all(x == c for x in args),
+    # An argument naming a pattern that is not bound (yet) is passed as None: it has no type, so it does not match
     "$eq_type": lambda c, args: all(
-        Component.get_type(x) == Component.get_type(c) for x in args
+        x is not None and Component.get_type(x) == Component.get_type(c) for x in args
     ),
 }
